@@ -563,6 +563,7 @@ package priority
 //@   modifies gDivErr, gPerm, gInv
 //@   ensures [*] result1 == nil ==> result0 != nil
 //@   ensures [C15] creation-fault-is-reported: gDivErr ==> result1 == ErrDividerBad
+//@   ensures [* C01] options-are-kept: result1 == nil ==> (result0.opts.HandlersQuantity == opts.HandlersQuantity && result0.opts.Inputs == opts.Inputs)
 
 // ---------------------------------------------------------------- API methods (run by other goroutines)
 //@ ghost var gRelP int
